@@ -1,5 +1,935 @@
 package main
 
-func runDriverLevel(out string, n int, seed int64, sys bool) map[string]int {
-	return map[string]int{}
+// Driver-level runs: the real driver.Driver is ticked under the mini engine with
+// a scripted MMU and scripted (or real) GPUs; every message on the driver's MMU
+// and GPU ports is logged for MigrationTrace.tla, the real vm.PageTable is
+// polled after every cycle (PTChange) and dumped at the end (Final).
+//
+// stub GPUs: the harness answers every command itself; a PageMigrationReqToCP is
+//            executed on a token store exactly as the message describes it.
+// sys:       every GPU is a real cp.CommandProcessor in front of a real
+//            PageMigrationController with scripted network and byte memories
+//            (the `world` of main.go); RDMA engine, CUs, address translators,
+//            caches and TLBs behind the command processor are scripted stubs.
+
+import (
+	"bufio"
+	"fmt"
+	"hash/crc32"
+	"math/rand"
+	"os"
+	"sort"
+
+	"github.com/sarchlab/akita/v4/mem/cache"
+	"github.com/sarchlab/akita/v4/mem/mem"
+	"github.com/sarchlab/akita/v4/mem/vm"
+	"github.com/sarchlab/akita/v4/mem/vm/tlb"
+	"github.com/sarchlab/akita/v4/sim"
+	"github.com/sarchlab/mgpusim/v4/amd/driver"
+	"github.com/sarchlab/mgpusim/v4/amd/protocol"
+	"github.com/sarchlab/mgpusim/v4/amd/timing/cp"
+	"github.com/sarchlab/mgpusim/v4/amd/timing/rdma"
+
+	ab "verifharness/akitabench"
+)
+
+var initCalls int // driver.Init() hands out PIDs from a process-wide counter
+
+type vpage struct {
+	vaddr uint64
+	dev   int    // last mapping seen in the real page table
+	paddr uint64 //
+	mig   bool
+	valid bool
+	busy  bool // named in a request not answered yet
+}
+
+type mmuReq struct {
+	id      int
+	msg     *vm.PageMigrationReqToDriver
+	pages   []*vpage
+	replied bool
+}
+
+type gpuCmd struct {
+	msg sim.Msg
+	k   string
+	id  int
+}
+
+type drvRun struct {
+	rec      *ab.Recorder
+	eng      *ab.Engine
+	n        int
+	log2     uint64
+	d        *driver.Driver
+	pt       vm.PageTable
+	pid      vm.PID
+	gpuP     sim.Port
+	mmuP     sim.Port
+	cpPort   []sim.Port // what the driver believes is the command processor of GPU g
+	pmcPort  []sim.Port
+	pages    []*vpage
+	reqs     []*mmuReq
+	cpIn     [][]gpuCmd
+	tok      []map[uint64]int // stub mode: contents token per physical page of device g
+	lo, hi   []uint64         // physical address range of device g
+	cyc      int
+	panicked bool
+	count    map[string]int
+	// sys mode
+	sys   bool
+	w     *world
+	cps   []*cp.CommandProcessor
+	stubQ [][]sim.Msg // per GPU: answers of the scripted units behind the CP, not delivered yet
+	migOf []sim.Msg   // per GPU: the PageMigrationReqToCP being executed
+	// environment discipline
+	avoid       bool // keep clear of the two known driver defects (see design/C19.md)
+	burst       bool // answers reach the driver in bursts, without a cycle in between
+	allAccess   bool // every GPU is listed as accessing
+	unreadShoot int  // shootdown responses delivered to the driver and not read yet
+	stallAll    bool // the MMU takes no reply at all until the driver has gone idle
+}
+
+// mayDeliver applies the `avoid` discipline to a response about to be delivered to the driver:
+// no response is put behind an unread shootdown response and no shootdown response behind anything.
+func (r *drvRun) mayDeliver(m sim.Msg) bool {
+	if !r.avoid {
+		return true
+	}
+	if r.unreadShoot > 0 {
+		return false
+	}
+	if kindOfRsp(m) == "shoot" && r.gpuP.PeekIncoming() != nil {
+		return false
+	}
+	return true
+}
+
+// replyDiscipline (avoid): a reply is not left in the MMU port while another request is outstanding.
+func (r *drvRun) replyDiscipline() {
+	if !r.avoid || r.mmuP.PeekOutgoing() == nil {
+		return
+	}
+	open := 0
+	for _, q := range r.reqs {
+		if !q.replied {
+			open++
+		}
+	}
+	if open > 1 {
+		r.takeReply()
+	}
+}
+
+func (r *drvRun) vpn(a uint64) uint64 { return a >> r.log2 }
+
+func (r *drvRun) devOf(paddr uint64) int {
+	for g := 0; g <= r.n; g++ {
+		if paddr >= r.lo[g] && paddr < r.hi[g] {
+			return g
+		}
+	}
+	return -1
+}
+
+func (r *drvRun) gpuOfPort(p sim.RemotePort) int {
+	for g := 1; g <= r.n; g++ {
+		if p == r.cpPort[g].AsRemote() || p == r.pmcPort[g].AsRemote() {
+			return g
+		}
+	}
+	return 0
+}
+
+func (r *drvRun) emit(e string, f ab.Rec) {
+	r.count[e]++
+	r.rec.Emit(e, f)
+}
+
+func digest(b []byte) int { return int(crc32.ChecksumIEEE(b) & 0x3fffffff) }
+
+// content digest of a physical page
+func (r *drvRun) dig(dev int, paddr uint64) int {
+	if dev < 1 || dev > r.n {
+		return -1
+	}
+	if !r.sys {
+		t, ok := r.tok[dev][paddr]
+		if !ok {
+			return -1
+		}
+		return t
+	}
+	buf := make([]byte, 1<<r.log2)
+	for i := range buf {
+		buf[i] = r.w.store[dev][paddr+uint64(i)]
+	}
+	return digest(buf)
+}
+
+func kindOfCmd(m sim.Msg) string {
+	switch m.(type) {
+	case *protocol.RDMADrainCmdFromDriver:
+		return "drain"
+	case *protocol.ShootDownCommand:
+		return "shoot"
+	case *protocol.PageMigrationReqToCP:
+		return "mig"
+	case *protocol.GPURestartReq:
+		return "restart"
+	case *protocol.RDMARestartCmdFromDriver:
+		return "rdmarestart"
+	}
+	return "other"
+}
+
+func kindOfRsp(m sim.Msg) string {
+	switch m.(type) {
+	case *protocol.RDMADrainRspToDriver:
+		return "drain"
+	case *protocol.ShootDownCompleteRsp:
+		return "shoot"
+	case *protocol.PageMigrationRspToDriver:
+		return "mig"
+	case *protocol.GPURestartRsp:
+		return "restart"
+	case *protocol.RDMARestartRspToDriver:
+		return "rdmarestart"
+	}
+	return "other"
+}
+
+func newDrvRun(rec *ab.Recorder, pmcRec *ab.Recorder, n int, log2 uint64, sys bool, rng *rand.Rand, pagesPerGPU int) *drvRun {
+	r := &drvRun{rec: rec, eng: ab.NewEngine(), n: n, log2: log2, sys: sys, count: map[string]int{}}
+	rec.ResetIDs()
+	pageSize := uint64(1) << log2
+	dram := pageSize * 64
+	r.pt = vm.NewPageTable(log2)
+	r.d = driver.MakeBuilder().WithEngine(r.eng).WithPageTable(r.pt).WithLog2PageSize(log2).
+		WithGlobalStorage(mem.NewStorage(8 * mem.GB)).WithMagicMemoryCopyMiddleware().Build("Driver")
+	r.gpuP, r.mmuP = r.d.GetPortByName("GPU"), r.d.GetPortByName("MMU")
+	conn := ab.NewConn("DrvConn")
+	conn.PlugIn(r.gpuP)
+	conn.PlugIn(r.mmuP)
+	r.cpPort = make([]sim.Port, n+1)
+	r.pmcPort = make([]sim.Port, n+1)
+	r.cpIn = make([][]gpuCmd, n+1)
+	r.tok = make([]map[uint64]int, n+1)
+	r.lo = make([]uint64, n+1)
+	r.hi = make([]uint64, n+1)
+	r.lo[0], r.hi[0] = pageSize, pageSize+4*mem.GB
+	if sys {
+		r.w = newWorldOn(pmcRec, r.eng, n)
+		r.w.ctrlByHarness = false
+		r.w.bias = 4 * mem.GB
+		r.cps = make([]*cp.CommandProcessor, n+1)
+		r.stubQ = make([][]sim.Msg, n+1)
+	}
+	r.migOf = make([]sim.Msg, n+1)
+	for g := 1; g <= n; g++ {
+		r.lo[g] = r.hi[g-1]
+		r.hi[g] = r.lo[g] + dram
+		r.tok[g] = map[uint64]int{}
+		if sys {
+			c := cp.MakeBuilder().WithEngine(r.eng).WithFreq(1 * sim.GHz).Build(fmt.Sprintf("GPU[%d].CP", g))
+			r.cps[g] = c
+			c.Driver = r.gpuP
+			c.PMC = r.w.ctrl[g]
+			stub := func(name string) sim.Port { return sim.NewPort(nil, 1, 1, fmt.Sprintf("GPU[%d].%s", g, name)) }
+			c.RDMA = stub("RDMA.Ctrl")
+			c.CUs = []sim.RemotePort{stub("CU0.Ctrl").AsRemote(), stub("CU1.Ctrl").AsRemote()}
+			c.AddressTranslators = []sim.Port{stub("AT0.Ctrl")}
+			c.TLBs = []sim.Port{stub("L1TLB.Ctrl"), stub("L2TLB.Ctrl")}
+			c.L1VCaches = []sim.Port{stub("L1V.Ctrl")}
+			c.L1SCaches = []sim.Port{stub("L1S.Ctrl")}
+			c.L1ICaches = []sim.Port{stub("L1I.Ctrl")}
+			c.L2Caches = []sim.Port{stub("L2.Ctrl")}
+			cc := ab.NewConn(fmt.Sprintf("CPConn%d", g))
+			for _, p := range []sim.Port{c.ToDriver, c.ToDMA, c.ToCUs, c.ToTLBs, c.ToRDMA, c.ToPMC, c.ToAddressTranslators, c.ToCaches} {
+				cc.PlugIn(p)
+			}
+			r.cpPort[g] = c.ToDriver
+			r.pmcPort[g] = r.w.rem[g]
+		} else {
+			r.cpPort[g] = sim.NewPort(nil, 1, 1, fmt.Sprintf("GPU[%d].CP.ToDriver", g))
+			r.pmcPort[g] = sim.NewPort(nil, 1, 1, fmt.Sprintf("GPU[%d].PMC.RemotePort", g))
+		}
+		r.d.RegisterGPU(r.cpPort[g], driver.DeviceProperties{CUCount: 4, DRAMSize: dram})
+		r.d.RemotePMCPorts = append(r.d.RemotePMCPorts, r.pmcPort[g])
+	}
+	ctx := r.d.Init()
+	initCalls++
+	r.pid = vm.PID(initCalls)
+	// buffers: pagesPerGPU pages on every GPU
+	for g := 1; g <= n; g++ {
+		r.d.SelectGPU(ctx, g)
+		ptr := r.d.AllocateMemory(ctx, uint64(pagesPerGPU)*pageSize)
+		for k := 0; k < pagesPerGPU; k++ {
+			va := uint64(ptr) + uint64(k)*pageSize
+			pg, found := r.pt.Find(r.pid, va)
+			if !found {
+				panic(fmt.Sprintf("harness: page %x of pid %d not in the page table", va, r.pid))
+			}
+			if r.devOf(pg.PAddr) != g || int(pg.DeviceID) != g {
+				panic(fmt.Sprintf("harness: device ranges are not what the harness assumes (page %x on %d, paddr %x)", va, pg.DeviceID, pg.PAddr))
+			}
+			r.pages = append(r.pages, &vpage{vaddr: va, dev: g, paddr: pg.PAddr, valid: pg.Valid, mig: pg.IsMigrating})
+			if sys {
+				r.w.addFrame(g, pg.PAddr, int(pageSize), rng)
+			} else {
+				r.tok[g][pg.PAddr] = 1000 + rng.Intn(1<<20)
+			}
+		}
+		if sys {
+			// pages the allocator may hand out next on this device (it pops the lowest free page)
+			for k := pagesPerGPU; k < pagesPerGPU+8; k++ {
+				r.w.addFrame(g, r.lo[g]+uint64(k)*pageSize, int(pageSize), rng)
+			}
+		}
+	}
+	r.hookPorts()
+	// Reset lines
+	ranges := [][]uint64{}
+	for g := 0; g <= n; g++ {
+		ranges = append(ranges, []uint64{uint64(g), r.vpn(r.lo[g]), r.vpn(r.hi[g])})
+	}
+	ptl := [][]uint64{}
+	content := [][]int{}
+	for _, p := range r.pages {
+		ptl = append(ptl, []uint64{r.vpn(p.vaddr), uint64(p.dev), r.vpn(p.paddr)})
+		content = append(content, []int{p.dev, int(r.vpn(p.paddr)), r.dig(p.dev, p.paddr)})
+	}
+	mode := "stub"
+	if sys {
+		mode = "sys"
+		r.w.emitReset(ab.Rec{"bias_mb": 4096, "level": "sys"})
+	}
+	rec.Emit("Reset", ab.Rec{"gpus": n, "log2": log2, "pid": int(r.pid), "ranges": ranges, "pt": ptl,
+		"content": content, "pagesize": pageSize, "mode": mode})
+	return r
+}
+
+func (r *drvRun) hookPorts() {
+	r.mmuP.AcceptHook(ab.HookFn(func(ctx sim.HookCtx) {
+		switch m := ctx.Item.(type) {
+		case *vm.PageMigrationReqToDriver:
+			id := r.rec.ID("q", m.ID)
+			switch ctx.Pos {
+			case sim.HookPosPortMsgRecvd:
+				want := [][]interface{}{}
+				keys := []int{}
+				for g := range m.MigrationInfo.GPUReqToVAddrMap {
+					keys = append(keys, int(g))
+				}
+				sort.Ints(keys)
+				for _, g := range keys {
+					vs := []uint64{}
+					for _, va := range m.MigrationInfo.GPUReqToVAddrMap[uint64(g)] {
+						vs = append(vs, r.vpn(va))
+					}
+					want = append(want, []interface{}{g, vs})
+				}
+				r.emit("MMUReq", ab.Rec{"id": id, "pid": int(m.PID), "host": m.CurrPageHostGPU,
+					"accessing": m.CurrAccessingGPUs, "want": want, "size": m.PageSize, "src": string(m.Src)})
+			case sim.HookPosPortMsgRetrieveIncoming:
+				r.emit("TakeMMU", ab.Rec{"id": id})
+			}
+		case *vm.PageMigrationRspFromDriver:
+			switch ctx.Pos {
+			case sim.HookPosPortMsgSend:
+				vs := []uint64{}
+				for _, va := range m.VAddr {
+					vs = append(vs, r.vpn(va))
+				}
+				top := 0
+				if m.RspToTop {
+					top = 1
+				}
+				r.emit("Reply", ab.Rec{"id": r.rec.ID("q", m.OriginalReq.Meta().ID), "vs": vs, "dst": string(m.Dst), "top": top})
+			case sim.HookPosPortMsgRetrieveOutgoing:
+				r.emit("TakeReply", ab.Rec{"id": r.rec.ID("q", m.OriginalReq.Meta().ID)})
+			}
+		}
+	}))
+	r.gpuP.AcceptHook(ab.HookFn(func(ctx sim.HookCtx) {
+		m := ctx.Item.(sim.Msg)
+		switch ctx.Pos {
+		case sim.HookPosPortMsgSend:
+			f := ab.Rec{"k": kindOfCmd(m), "gpu": r.gpuOfPort(m.Meta().Dst), "id": r.rec.ID("c", m.Meta().ID)}
+			switch c := m.(type) {
+			case *protocol.ShootDownCommand:
+				vs := []uint64{}
+				for _, va := range c.VAddr {
+					vs = append(vs, r.vpn(va))
+				}
+				f["vs"] = vs
+				f["pid"] = int(c.PID)
+			case *protocol.PageMigrationReqToCP:
+				ps := uint64(1) << r.log2
+				f["owner"] = r.gpuOfPort(c.DestinationPMCPort.AsRemote())
+				f["from"] = r.vpn(c.ToReadFromPhysicalAddress)
+				f["to"] = r.vpn(c.ToWriteToPhysicalAddress)
+				f["off"] = c.ToReadFromPhysicalAddress%ps + c.ToWriteToPhysicalAddress%ps
+				f["fromdev"] = r.devOf(c.ToReadFromPhysicalAddress)
+				f["todev"] = r.devOf(c.ToWriteToPhysicalAddress)
+				f["size"] = c.PageSize
+			}
+			r.emit("Cmd", f)
+		case sim.HookPosPortMsgRetrieveOutgoing:
+			r.emit("GPUTake", ab.Rec{"k": kindOfCmd(m), "gpu": r.gpuOfPort(m.Meta().Dst), "id": r.rec.ID("c", m.Meta().ID)})
+		case sim.HookPosPortMsgRecvd:
+			g := r.gpuOfPort(m.Meta().Src)
+			f := ab.Rec{"k": kindOfRsp(m), "gpu": g}
+			if kindOfRsp(m) == "mig" && g >= 1 && r.migOf[g] != nil {
+				c := r.migOf[g].(*protocol.PageMigrationReqToCP)
+				f["id"] = r.rec.ID("c", c.ID)
+				f["dig"] = r.dig(g, c.ToWriteToPhysicalAddress)
+				r.migOf[g] = nil
+			}
+			if kindOfRsp(m) == "shoot" {
+				r.unreadShoot++
+			}
+			r.emit("GPURsp", f)
+		case sim.HookPosPortMsgRetrieveIncoming:
+			if kindOfRsp(m) == "shoot" {
+				r.unreadShoot--
+			}
+			r.emit("RecvRsp", ab.Rec{"k": kindOfRsp(m), "gpu": r.gpuOfPort(m.Meta().Src)})
+		}
+	}))
+}
+
+// poll compares the real page table with the last mapping seen and logs every change.
+func (r *drvRun) poll() {
+	for _, p := range r.pages {
+		pg, found := r.pt.Find(r.pid, p.vaddr)
+		if !found {
+			if p.valid {
+				p.valid = false
+				r.emit("PTChange", ab.Rec{"vpn": r.vpn(p.vaddr), "dev": -1, "ppn": 0, "off": 0, "valid": 0, "mig": 0})
+			}
+			continue
+		}
+		if int(pg.DeviceID) != p.dev || pg.PAddr != p.paddr || pg.IsMigrating != p.mig || pg.Valid != p.valid {
+			p.dev, p.paddr, p.mig, p.valid = int(pg.DeviceID), pg.PAddr, pg.IsMigrating, pg.Valid
+			b := func(x bool) int {
+				if x {
+					return 1
+				}
+				return 0
+			}
+			r.emit("PTChange", ab.Rec{"vpn": r.vpn(p.vaddr), "dev": p.dev, "ppn": r.vpn(p.paddr),
+				"off": p.paddr % (uint64(1) << r.log2), "rangedev": r.devOf(p.paddr), "valid": b(p.valid), "mig": b(p.mig)})
+		}
+	}
+}
+
+func (r *drvRun) tick(n int) {
+	if r.panicked {
+		return
+	}
+	defer func() {
+		if x := recover(); x != nil {
+			r.panicked = true
+			r.rec.Emit("Panic", ab.Rec{"msg": fmt.Sprint(x)})
+			if r.sys {
+				r.w.panicked = true
+			}
+		}
+	}()
+	for i := 0; i < n; i++ {
+		r.cyc++
+		r.eng.RunUntil(ab.Cycle(r.cyc))
+		r.poll()
+	}
+}
+
+// ------------------------------------------------------------ environment
+// issue builds an MMU request for pages that all live on host and are wanted by GPU(s) other than host.
+func (r *drvRun) issue(host int, want map[int][]*vpage, accessing []uint64) bool {
+	if r.mmuP.PeekIncoming() != nil {
+		return false
+	}
+	req := vm.NewPageMigrationReqToDriver(sim.RemotePort("MMU.MigrationPort"), r.mmuP.AsRemote())
+	req.ID = sim.GetIDGenerator().Generate()
+	req.PID = r.pid
+	req.PageSize = uint64(1) << r.log2
+	req.CurrPageHostGPU = uint64(host)
+	req.CurrAccessingGPUs = accessing
+	req.RespondToTop = true
+	req.MigrationInfo = &vm.PageMigrationInfo{GPUReqToVAddrMap: map[uint64][]uint64{}}
+	q := &mmuReq{id: len(r.reqs) + 1, msg: req}
+	for g, ps := range want {
+		for _, p := range ps {
+			req.MigrationInfo.GPUReqToVAddrMap[uint64(g)] = append(req.MigrationInfo.GPUReqToVAddrMap[uint64(g)], p.vaddr)
+			q.pages = append(q.pages, p)
+		}
+	}
+	if r.mmuP.Deliver(req) != nil {
+		return false
+	}
+	for _, p := range q.pages {
+		p.busy = true
+	}
+	r.reqs = append(r.reqs, q)
+	return true
+}
+
+func (r *drvRun) takeReply() bool {
+	m := r.mmuP.RetrieveOutgoing()
+	if m == nil {
+		return false
+	}
+	rsp := m.(*vm.PageMigrationRspFromDriver)
+	for _, q := range r.reqs {
+		if q.msg == rsp.OriginalReq {
+			q.replied = true
+			for _, p := range q.pages {
+				p.busy = false
+			}
+		}
+	}
+	return true
+}
+
+func (r *drvRun) gpuTake() bool {
+	m := r.gpuP.RetrieveOutgoing()
+	if m == nil {
+		return false
+	}
+	g := r.gpuOfPort(m.Meta().Dst)
+	if g == 0 {
+		r.rec.Emit("CmdLost", ab.Rec{"dst": string(m.Meta().Dst)})
+		return true
+	}
+	if r.sys {
+		if c, ok := m.(*protocol.PageMigrationReqToCP); ok {
+			r.migOf[g] = c
+		}
+		if r.cps[g].ToDriver.Deliver(m) != nil {
+			panic("harness: CP.ToDriver refused a command")
+		}
+		return true
+	}
+	r.cpIn[g] = append(r.cpIn[g], gpuCmd{msg: m, k: kindOfCmd(m)})
+	return true
+}
+
+// gpuRspAt (stub GPUs): GPU g executes its i-th pending command and answers.
+func (r *drvRun) gpuRspAt(g, i int) bool {
+	c := r.cpIn[g][i]
+	var rsp sim.Msg
+	switch m := c.msg.(type) {
+	case *protocol.RDMADrainCmdFromDriver:
+		rsp = protocol.NewRDMADrainRspToDriver(r.cpPort[g], r.gpuP)
+	case *protocol.ShootDownCommand:
+		rsp = protocol.NewShootdownCompleteRsp(r.cpPort[g], r.gpuP)
+	case *protocol.GPURestartReq:
+		rsp = protocol.NewGPURestartRsp(r.cpPort[g], r.gpuP)
+	case *protocol.RDMARestartCmdFromDriver:
+		rsp = protocol.NewRDMARestartRspToDriver(r.cpPort[g], r.gpuP)
+	case *protocol.PageMigrationReqToCP:
+		// the copy, exactly as the message describes it
+		owner := r.gpuOfPort(m.DestinationPMCPort.AsRemote())
+		t := -1
+		if owner >= 1 {
+			if x, ok := r.tok[owner][m.ToReadFromPhysicalAddress]; ok {
+				t = x
+			}
+		}
+		rsp = protocol.NewPageMigrationRspToDriver(r.cpPort[g], r.gpuP)
+		if r.mayDeliver(rsp) {
+			r.tok[g][m.ToWriteToPhysicalAddress] = t
+			r.migOf[g] = m
+		}
+	default:
+		panic("harness: unexpected command for a GPU")
+	}
+	if !r.mayDeliver(rsp) {
+		r.migOf[g] = nil
+		return false
+	}
+	if r.gpuP.Deliver(rsp) != nil {
+		return false
+	}
+	r.cpIn[g] = append(r.cpIn[g][:i], r.cpIn[g][i+1:]...)
+	return true
+}
+
+// ---- sys mode: the scripted units behind a real command processor
+func (r *drvRun) sysServe(g int, rng *rand.Rand, lazy bool) bool {
+	c := r.cps[g]
+	progress := false
+	answer := func(p sim.Port, mk func(m sim.Msg) sim.Msg) {
+		for {
+			if lazy && rng.Intn(2) == 0 {
+				return
+			}
+			m := p.RetrieveOutgoing()
+			if m == nil {
+				return
+			}
+			progress = true
+			if rsp := mk(m); rsp != nil {
+				r.stubQ[g] = append(r.stubQ[g], rsp)
+			}
+		}
+	}
+	answer(c.ToRDMA, func(m sim.Msg) sim.Msg {
+		switch q := m.(type) {
+		case *rdma.DrainReq:
+			return rdma.DrainRspBuilder{}.WithSrc(q.Dst).WithDst(q.Src).Build()
+		case *rdma.RestartReq:
+			return rdma.RestartRspBuilder{}.WithSrc(q.Dst).WithDst(q.Src).Build()
+		}
+		panic("harness: unexpected message to the RDMA engine")
+	})
+	answer(c.ToCUs, func(m sim.Msg) sim.Msg {
+		switch q := m.(type) {
+		case *protocol.CUPipelineFlushReq:
+			return protocol.CUPipelineFlushRspBuilder{}.WithSrc(q.Dst).WithDst(q.Src).Build()
+		case *protocol.CUPipelineRestartReq:
+			return protocol.CUPipelineRestartRspBuilder{}.WithSrc(q.Dst).WithDst(q.Src).Build()
+		}
+		panic("harness: unexpected message to a CU")
+	})
+	answer(c.ToAddressTranslators, func(m sim.Msg) sim.Msg {
+		q := m.(*mem.ControlMsg)
+		return mem.ControlMsgBuilder{}.WithSrc(q.Dst).WithDst(q.Src).ToNotifyDone().Build()
+	})
+	answer(c.ToCaches, func(m sim.Msg) sim.Msg {
+		switch q := m.(type) {
+		case *cache.FlushReq:
+			return cache.FlushRspBuilder{}.WithSrc(q.Dst).WithDst(q.Src).WithRspTo(q.ID).Build()
+		case *cache.RestartReq:
+			return cache.RestartRspBuilder{}.WithSrc(q.Dst).WithDst(q.Src).WithRspTo(q.ID).Build()
+		}
+		panic("harness: unexpected message to a cache")
+	})
+	answer(c.ToTLBs, func(m sim.Msg) sim.Msg {
+		switch q := m.(type) {
+		case *tlb.FlushReq:
+			return tlb.FlushRspBuilder{}.WithSrc(q.Dst).WithDst(q.Src).Build()
+		case *tlb.RestartReq:
+			return tlb.RestartRspBuilder{}.WithSrc(q.Dst).WithDst(q.Src).Build()
+		}
+		panic("harness: unexpected message to a TLB")
+	})
+	// CP <-> PMC control link
+	if !(lazy && rng.Intn(2) == 0) {
+		if m := c.ToPMC.PeekOutgoing(); m != nil && r.w.ctrl[g].PeekIncoming() == nil {
+			c.ToPMC.RetrieveOutgoing()
+			r.w.noteReq(g, m)
+			if r.w.ctrl[g].Deliver(m) != nil {
+				panic("harness: PMC control port refused")
+			}
+			progress = true
+		}
+		if m := r.w.ctrl[g].PeekOutgoing(); m != nil {
+			r.w.takeComplete(g)
+			if c.ToPMC.Deliver(m) != nil {
+				panic("harness: CP.ToPMC refused")
+			}
+			progress = true
+		}
+	}
+	// answers of the scripted units reach the CP
+	for i := 0; i < len(r.stubQ[g]); {
+		if lazy && rng.Intn(3) == 0 {
+			i++
+			continue
+		}
+		m := r.stubQ[g][i]
+		var p sim.Port
+		switch m.Meta().Dst {
+		case c.ToRDMA.AsRemote():
+			p = c.ToRDMA
+		case c.ToCUs.AsRemote():
+			p = c.ToCUs
+		case c.ToAddressTranslators.AsRemote():
+			p = c.ToAddressTranslators
+		case c.ToCaches.AsRemote():
+			p = c.ToCaches
+		case c.ToTLBs.AsRemote():
+			p = c.ToTLBs
+		default:
+			panic("harness: stub answer to an unknown port " + string(m.Meta().Dst))
+		}
+		if p.Deliver(m) != nil {
+			i++
+			continue
+		}
+		r.stubQ[g] = append(r.stubQ[g][:i], r.stubQ[g][i+1:]...)
+		progress = true
+	}
+	// CP -> driver
+	if !(lazy && rng.Intn(2) == 0) {
+		for {
+			m := c.ToDriver.PeekOutgoing()
+			if m == nil || !r.mayDeliver(m) {
+				break
+			}
+			c.ToDriver.RetrieveOutgoing()
+			if r.gpuP.Deliver(m) != nil {
+				panic("harness: driver GPU port refused")
+			}
+			progress = true
+		}
+	}
+	return progress
+}
+
+func (r *drvRun) pendingWork() bool {
+	for g := 1; g <= r.n; g++ {
+		if len(r.cpIn[g]) > 0 {
+			return true
+		}
+		if r.sys && len(r.stubQ[g]) > 0 {
+			return true
+		}
+	}
+	return false
+}
+
+func (r *drvRun) serveAll(rng *rand.Rand) bool {
+	progress := false
+	for !r.stallAll && r.takeReply() {
+		progress = true
+	}
+	for r.gpuTake() {
+		progress = true
+	}
+	for g := 1; g <= r.n; g++ {
+		for len(r.cpIn[g]) > 0 && r.gpuRspAt(g, 0) {
+			progress = true
+		}
+		if r.sys && r.sysServe(g, rng, false) {
+			progress = true
+		}
+	}
+	if r.sys && r.w.serveAll() {
+		progress = true
+	}
+	return progress
+}
+
+func (r *drvRun) finish(rng *rand.Rand) {
+	for i := 0; i < 100000 && !r.panicked; i++ {
+		progress := r.serveAll(rng)
+		before := r.eng.Events
+		r.tick(1)
+		if r.eng.Events != before {
+			progress = true
+		}
+		if !progress && r.eng.Pending() == 0 {
+			if r.stallAll {
+				r.stallAll = false // everything else has drained: the MMU finally takes its replies
+				continue
+			}
+			break
+		}
+	}
+	if r.panicked {
+		return
+	}
+	fin := [][]int{}
+	for _, p := range r.pages {
+		pg, found := r.pt.Find(r.pid, p.vaddr)
+		if !found {
+			fin = append(fin, []int{int(r.vpn(p.vaddr)), -1, 0, -1})
+			continue
+		}
+		fin = append(fin, []int{int(r.vpn(p.vaddr)), int(pg.DeviceID), int(r.vpn(pg.PAddr)), r.dig(int(pg.DeviceID), pg.PAddr)})
+	}
+	r.emit("Final", ab.Rec{"pt": fin})
+	open := 0
+	for _, q := range r.reqs {
+		if !q.replied {
+			open++
+		}
+	}
+	r.emit("Quiesce", ab.Rec{"open": open, "pending_events": r.eng.Pending(), "cycle": r.cyc})
+	if r.sys {
+		r.w.dumpStorage()
+		r.w.rec.Emit("Quiesce", ab.Rec{"pending_events": r.eng.Pending(), "cycle": r.cyc})
+	}
+}
+
+func (r *drvRun) random(rng *rand.Rand, nreq int, stallReplies bool) {
+	issued := 0
+	mood := 0 // 1: GPUs answer nothing, 2: MMU takes no reply
+	r.stallAll = stallReplies
+	for steps := 0; steps < 4000*nreq && !r.panicked; steps++ {
+		if rng.Intn(30) == 0 {
+			mood = rng.Intn(3)
+		}
+		r.replyDiscipline()
+		all := true
+		for _, q := range r.reqs {
+			if !q.replied {
+				all = false
+			}
+		}
+		if issued >= nreq && all && !r.pendingWork() && r.eng.Pending() == 0 {
+			break
+		}
+		switch rng.Intn(8) {
+		case 0:
+			if issued >= nreq {
+				break
+			}
+			host := 1 + rng.Intn(r.n)
+			cand := []*vpage{}
+			for _, p := range r.pages {
+				if p.dev == host && !p.busy && !p.mig || (p.dev == host && !p.busy) {
+					cand = append(cand, p)
+				}
+			}
+			if len(cand) == 0 {
+				break
+			}
+			rng.Shuffle(len(cand), func(i, j int) { cand[i], cand[j] = cand[j], cand[i] })
+			want := map[int][]*vpage{}
+			others := []int{}
+			for g := 1; g <= r.n; g++ {
+				if g != host {
+					others = append(others, g)
+				}
+			}
+			np := 1 + rng.Intn(2)
+			if rng.Intn(4) == 0 {
+				np = 3
+			}
+			for k := 0; k < np && k < len(cand); k++ {
+				g := others[0]
+				if len(others) > 1 && rng.Intn(5) == 0 {
+					g = others[1+rng.Intn(len(others)-1)]
+				}
+				want[g] = append(want[g], cand[k])
+			}
+			if rng.Intn(2) == 0 {
+				rng.Shuffle(len(others), func(i, j int) { others[i], others[j] = others[j], others[i] })
+			}
+			acc := []uint64{uint64(host)}
+			for _, g := range others {
+				if r.allAccess || rng.Intn(3) == 0 {
+					acc = append(acc, uint64(g))
+				}
+			}
+			if r.issue(host, want, acc) {
+				issued++
+			}
+		case 1, 2:
+			r.gpuTake()
+		case 3, 4:
+			if mood == 1 {
+				break
+			}
+			g := 1 + rng.Intn(r.n)
+			if r.burst {
+				// everything that is pending anywhere is answered at once
+				for r.gpuTake() {
+				}
+				for h := 1; h <= r.n; h++ {
+					for len(r.cpIn[h]) > 0 && r.gpuRspAt(h, 0) {
+					}
+					if r.sys {
+						r.sysServe(h, rng, false)
+					}
+				}
+			} else if r.sys {
+				r.sysServe(g, rng, true)
+			} else if len(r.cpIn[g]) > 0 {
+				r.gpuRspAt(g, rng.Intn(len(r.cpIn[g])))
+			}
+		case 5:
+			if r.sys {
+				w := r.w
+				switch rng.Intn(4) {
+				case 0:
+					w.netTake(1 + rng.Intn(r.n))
+				case 1:
+					if len(w.net) > 0 {
+						w.netDeliverAt(rng.Intn(len(w.net)))
+					}
+				case 2:
+					w.memTake(1 + rng.Intn(r.n))
+				case 3:
+					g := 1 + rng.Intn(r.n)
+					if len(w.pend[g]) > 0 {
+						w.memRspAt(g, rng.Intn(len(w.pend[g])))
+					}
+				}
+			}
+		case 6:
+			if mood != 2 && !stallReplies {
+				r.takeReply()
+			}
+		}
+		if r.sys && rng.Intn(2) == 0 {
+			r.w.serveAll()
+		}
+		if rng.Intn(3) > 0 {
+			r.tick(1)
+		}
+	}
+}
+
+func runDriverLevel(out, pmcOut string, nruns int, seed int64, sys bool, ngpu int, log2 uint64, kind string) map[string]int {
+	f, err := os.Create(out)
+	if err != nil {
+		panic(err)
+	}
+	bw := bufio.NewWriter(f)
+	rec := ab.NewRecorder(bw)
+	var pmcRec *ab.Recorder
+	var pf *os.File
+	var pbw *bufio.Writer
+	if sys {
+		pf, err = os.Create(pmcOut)
+		if err != nil {
+			panic(err)
+		}
+		pbw = bufio.NewWriter(pf)
+		pmcRec = ab.NewRecorder(pbw)
+	}
+	rng := rand.New(rand.NewSource(seed))
+	stats := map[string]int{}
+	for i := 0; i < nruns; i++ {
+		r := newDrvRun(rec, pmcRec, ngpu, log2, sys, rng, 3)
+		nreq := 1 + rng.Intn(4)
+		st := false
+		switch kind {
+		case "normal":
+			r.avoid = true
+		case "known":
+			// scenarios that exhibit the two known driver defects (accepted once the fixes are in)
+			if i%2 == 0 {
+				st, nreq = true, 3 // the MMU port stays blocked over three handshakes
+			} else {
+				r.burst, r.allAccess, nreq = true, true, 2 // shootdown acknowledgements arrive together
+			}
+		case "wild":
+			st = i%7 == 3
+			r.burst = i%5 == 2
+		default:
+			panic("unknown -drvkind " + kind)
+		}
+		r.random(rng, nreq, st)
+		r.finish(rng)
+		for _, k := range []string{"Reply", "Cmd", "PTChange", "MMUReq"} {
+			stats[k] += r.count[k]
+		}
+	}
+	bw.Flush()
+	f.Close()
+	stats["traces"] = nruns
+	stats["events"] = rec.Seq
+	if sys {
+		pbw.Flush()
+		pf.Close()
+		stats["pmc_events"] = pmcRec.Seq
+	}
+	return stats
 }
